@@ -599,6 +599,28 @@ def _guard_idiom(fn: ast.AST, name: str, use_stmt: ast.stmt, use_node: Optional[
                         between = [a for a in assigns(flag) if g2.end_lineno < a.lineno < guard.lineno]
                         if not between:
                             return f"`{name}` is assigned under `if {flag}:`; `{flag}` is only narrowed inside that block before the guarded use"
+    # idiom B': `if flag: name = ..; flag = <narrowed>` ... `if not flag: continue / return / raise` ... use(name)
+    from ..symex import always_leaves
+    for d in defs:
+        for g2 in enclosing_ifs(d):
+            if not isinstance(g2.test, ast.Name):
+                continue
+            flag = g2.test.id
+            bl = body_list_of(g2)
+            if bl is None:
+                continue
+            anc = use_stmt
+            while anc is not None and not any(anc is x for x in bl):
+                anc = parents.get(id(anc))
+            if anc is None or anc is g2:
+                continue
+            i0, i1 = [k for k, x in enumerate(bl) if x is g2][0], [k for k, x in enumerate(bl) if x is anc][0]
+            for s_ in bl[i0 + 1:i1]:
+                if isinstance(s_, ast.If) and not s_.orelse and isinstance(s_.test, ast.UnaryOp) and isinstance(s_.test.op, ast.Not) and isinstance(s_.test.operand, ast.Name) \
+                        and s_.test.operand.id == flag and always_leaves(s_.body):
+                    between = [a for a in assigns(flag) if g2.end_lineno < a.lineno <= getattr(use_stmt, "lineno", 0)]
+                    if not between:
+                        return f"`{name}` is assigned under `if {flag}:`; `{flag}` is only narrowed inside that block and `if not {flag}:` leaves before the use"
     return None
 
 
